@@ -34,22 +34,41 @@ Definition sig_verify (k msg : N) (s : sigv) : bool :=
   | SigOf k' m' => (k =? k') && (msg =? m')
   end.
 
+(** * Bookkeeper keys as the header carries them *)
+(** A header names its bookkeepers by ENCODED public keys.  [BkKey k]: the decoded key object is
+    peer/key [k]'s genuine key (whatever the encoding: compressed or uncompressed).  [BkForged pid]:
+    a decoded key object that is no genuine key (ec.DecodePublicKey does not check that an
+    uncompressed point is on the curve) but whose vconfig.PubkeyID - the compressed form, X plus
+    the parity of Y - is [pid]; under such a key no signature verifies: the crypto library
+    returns false or panics, and signature.verify turns the panic into false. *)
+Inductive bkey :=
+| BkKey (k : N)
+| BkForged (pid : N).
+
+Definition bk_pid (b : bkey) : N := match b with BkKey k => k | BkForged p => p end.
+
+Definition bk_verify (b : bkey) (msg : N) (s : sigv) : bool :=
+  match b with
+  | BkKey k => sig_verify k msg s
+  | BkForged _ => false
+  end.
+
 (** * signature.VerifyMultiSignature *)
 Inductive ms_err := MsNotEnough | MsBadSig | MsFailed | MsPanic.
 
 (** inner loop [for j := 0; j < n; j++]: skip masked positions, take the first unmasked key that
     verifies; [None] = no key found ([valid] stays false). *)
-Fixpoint ms_scan (msg : N) (s : sigv) (keys : list N) (mask : list bool) : option (list bool) :=
+Fixpoint ms_scan (msg : N) (s : sigv) (keys : list bkey) (mask : list bool) : option (list bool) :=
   match keys, mask with
   | k :: ks, b :: bs =>
       if b then option_map (cons true) (ms_scan msg s ks bs)
-      else if sig_verify k msg s then Some (true :: bs)
+      else if bk_verify k msg s then Some (true :: bs)
       else option_map (cons false) (ms_scan msg s ks bs)
   | _, _ => None
   end.
 
 (** outer loop [for i := 0; i < m; i++] over sigs[i]; [None] = loop finished, return nil. *)
-Fixpoint ms_loop (msg : N) (keys : list N) (m : nat) (sigs : list sigv) (mask : list bool)
+Fixpoint ms_loop (msg : N) (keys : list bkey) (m : nat) (sigs : list sigv) (mask : list bool)
   : option ms_err :=
   match m with
   | O => None
@@ -68,7 +87,7 @@ Fixpoint ms_loop (msg : N) (keys : list N) (m : nat) (sigs : list sigv) (mask : 
       end
   end.
 
-Definition verify_multi (msg : N) (keys : list N) (m : Z) (sigs : list sigv) : option ms_err :=
+Definition verify_multi (msg : N) (keys : list bkey) (m : Z) (sigs : list sigv) : option ms_err :=
   let n := Z.of_nat (length keys) in
   if (ms_sigs_have (Z.of_nat (length sigs)) <? ms_sigs_need m)%Z then Some MsNotEnough
   else if ((n <? ms_inner_bound n) || (ms_mask_len n <? ms_inner_bound n))%Z
@@ -127,7 +146,7 @@ Record xheader := mkHeader {
   h_chain : N;
   h_height : N;
   h_msg : N;                  (* header.Hash() as a message number *)
-  h_bookkeepers : list N;
+  h_bookkeepers : list bkey;
   h_sigs : list sigv;
   h_payload : payload
 }.
@@ -156,7 +175,7 @@ Definition verify_header (st : hstore) (h : xheader) : vh_result :=
           let nb := Z.of_nat (length (h_bookkeepers h)) in
           let np := Z.of_nat (length pm) in
           if (vh_count_lhs nb <? vh_count_rhs np)%Z then RErr ETooFew
-          else if negb (forallb (fun k => mem k pm) (h_bookkeepers h)) then RErr ENotPeer
+          else if negb (forallb (fun b => mem (bk_pid b) pm) (h_bookkeepers h)) then RErr ENotPeer
           else match verify_multi (h_msg h) (h_bookkeepers h) (vh_multisig_m nb) (h_sigs h) with
                | Some e => RErr (ms_to_vh e)
                | None => ROk
@@ -172,7 +191,7 @@ Fixpoint has_dup (l : list N) : bool :=
   end.
 
 Definition verify_header_repaired (st : hstore) (h : xheader) : vh_result :=
-  if has_dup (h_bookkeepers h) then RErr ENotPeer else verify_header st h.
+  if has_dup (map bk_pid (h_bookkeepers h)) then RErr ENotPeer else verify_header st h.
 
 (** * Writing side: putConsensusPeers / UpdateConsensusPeer / ProcessHeader / the two entry points *)
 Fixpoint set1 {V} (k : N) (v : V) (l : list (N * V)) : list (N * V) :=
